@@ -157,6 +157,9 @@ def _make_class(bt, cname, callbacks):
             bt.log.append((bt.seq[0], id(self), cname, "post", vals))
             if bt.fault and bt.fault[0] == "post" and bt.fault[1] == id(self):
                 raise InjectedFault("post_randomize")
+            # segmented randomization: the callback randomizes one of its own sub-objects again
+            for sub in getattr(bt, "post_nested", {}).get(id(self), []):
+                getattr(self, sub).randomize()
         ns["pre_randomize"] = pre_randomize
         ns["post_randomize"] = post_randomize
     T = type(cname, (base,), ns)
